@@ -96,7 +96,7 @@ const (
 func asmInitCode(logs []evmLog, sstore [][2]byte, end initEnd) []byte {
 	progLen := 0
 	for _, l := range logs {
-		progLen += 3 + 3 + 2 + 1  // PUSH2 len, PUSH2 off, PUSH1 0, CODECOPY
+		progLen += 3 + 3 + 2 + 1 // PUSH2 len, PUSH2 off, PUSH1 0, CODECOPY
 		progLen += 33 * len(l.Topics)
 		progLen += 3 + 2 + 1 // PUSH2 len, PUSH1 0, LOGn
 	}
